@@ -88,8 +88,13 @@ impl S3PartitionStorage {
                             //Nth bytes
                             file_buffer.put_slice(&value_as_bytes);
                             //4 bytes
-                            //file_buffer.put_slice(&value.state.to_le_bytes());
-                            file_buffer.put_slice(&ValueStatus::Ok.to_le_bytes());
+                            // A removed key has to come back removed, everything else is clean once stored
+                            let stored_state = if value.state == ValueStatus::Deleted {
+                                ValueStatus::Deleted
+                            } else {
+                                ValueStatus::Ok
+                            };
+                            file_buffer.put_slice(&stored_state.to_le_bytes());
 
                             //4 bytes
                             file_buffer.put_slice(&value.version.to_le_bytes());
